@@ -68,7 +68,8 @@ def horiz_int_module(tag, pix, comp, nch, norm_fn, oracle, tables, fixed_px, fix
         kani::cover!(%s);
     }
 """ % (tag, name, comp, nch, norm_fn, prec, wins, cover)
-    code += """
+    if fixed_px:
+      code += """
     #[kani::proof]
     #[kani::unwind(6)]
     fn k10_%s_pixels_fixed_any_taps() {
@@ -87,10 +88,15 @@ T16 = [
     ("extreme", 8, "[(2, &[30000, -29744]), (0, &[-32768, 32767, 257])]", "r.0 == 255 && r.1 == 1", "thorough"),
     ("p21", 21, "[(0, &[32767, 32767]), (3, &[-32768])]", "r.0 == 8", "thorough"),
 ]
-# Normalizer32 tables: p = 31 is what Normalizer32::new yields for a maximal weight of 0.5 (k = w * 2^31)
+# Normalizer32 tables.  Measured: the SAT cost of a u16 harness is (number of outputs) x (set bits of the tap constants): taps with
+# one or two set bits cost < 1 s, two 'dirty' taps (-0.1, 1.2 at precision 30) cost ~25 s per output component, two taps of
+# magnitude 2^31 - 1 ~55 s per output component.  Hence: window 0 = smooth taps with one set bit (0.25, 0.5, 0.25), window 1 =
+# a dirty sharpening pair whose sum is not 2^p (a wrong rounding constant shows), the extreme table only for u16x2.
 T32 = [
-    ("smooth_sharpen", 31, "[(0, &[536870912, 1073741824, 536870912]), (1, &[-214748365, 2147483647, -214748365])]", "r.0 == 65535 && r.1 == 0", None),
-    ("extreme", 45, "[(0, &[2147483647, 2147483647, -2147483648]), (2, &[-2147483648, 2147483647])]", "r.0 == 8 && r.1 == 1", "thorough"),
+    ("smooth_sharpen", 30, "[(0, &[268435456, 536870912, 268435456]), (2, &[-107374182, 1288490188])]", "r.0 == 65535 && r.1 == 0", None),
+]
+T32X = T32 + [
+    ("extreme", 45, "[(0, &[2147483647, -2147483648]), (3, &[2147483647])]", "r.0 == 3 && r.1 == 1", "thorough"),
 ]
 
 MODS = []
@@ -107,95 +113,98 @@ def add_horiz(tag, pix, comp, nch, tables, fixed_px):
           "%s horizontal kernel == fx on every channel for every pixel value; spare destination pixel and source untouched; "
           "every destination pixel assigned (result independent of the stale content); row reads in bounds" % tag,
           P_INT, tier=tier, covers=1)
-    H("k10_%s_pixels_fixed_any_taps" % tag,
-      "%s pixel line %s, ALL %s taps (3 + 2), precision %d" % (pix, fixed_px, "i32" if wide else "i16", 30 if wide else 14),
-      "%s horizontal kernel == fx on every channel for every tap value (no accumulator overflow)" % tag,
-      ["C01", "C03", "C10", "C18"], tier="thorough")
+    if fixed_px:
+        H("k10_%s_pixels_fixed_any_taps" % tag,
+          "%s pixel line %s, ALL %s taps (3 + 2), precision %d" % (pix, fixed_px, "i32" if wide else "i16", 30 if wide else 14),
+          "%s horizontal kernel == fx on every channel for every tap value (no accumulator overflow)" % tag,
+          ["C01", "C03", "C10", "C18"], tier="thorough", covers=1)
 
 
 add_horiz("u8x2", "U8x2", "u8", 2, T16, "[[255, 0], [0, 255], [17, 128], [200, 1]]")
-add_horiz("u8x3", "U8x3", "u8", 3, T16, "[[255, 0, 3], [0, 255, 77], [17, 128, 254], [200, 1, 100]]")
-
-add_horiz("u16x2", "U16x2", "u16", 2, T32, "[[65535, 0], [1, 40000], [40000, 256], [9, 65535]]")
-add_horiz("u16x3", "U16x3", "u16", 3, T32, "[[65535, 0, 3], [1, 40000, 77], [40000, 256, 65534], [9, 65535, 100]]")
-add_horiz("u16x4", "U16x4", "u16", 4, T32, "[[65535, 0, 3, 1000], [1, 40000, 77, 0], [40000, 256, 65534, 65535], [9, 65535, 100, 32768]]")
-
+add_horiz("u8x3", "U8x3", "u8", 3, T16[:2], "[[255, 0, 3], [0, 255, 77], [17, 128, 254], [200, 1, 100]]")
+add_horiz("u16x2", "U16x2", "u16", 2, T32X, "[[65535, 0], [1, 40000], [40000, 256], [9, 65535]]")
+add_horiz("u16x3", "U16x3", "u16", 3, T32, None)
+add_horiz("u16x4", "U16x4", "u16", 4, T32, None)
 
 
 # ------------------------------------------------------------------------------------------------------------------------------
-# vertical kernels: (DW+1) x 3 source -> DW x 2 destination (+ 1 spare pixel), column offset 0 / 1
+# vertical kernels: (DW+1) x SR source -> DW x DR destination (+ 1 spare pixel), column offset 0 / 1
 # ------------------------------------------------------------------------------------------------------------------------------
-def vert_run(pix, comp, nch, dw, norm_ty, oracle, cmp="=="):
-    """`fn run(sp, n, offset)`: sp[r] = the components of source row r.  oracle(r, [e0, e1, e2]) -> rust expression."""
+def vert_run(pix, comp, nch, dw, coef_ty, cond, sr=3, dr=2):
+    """`fn run(sp, n, offset)`: sp[r] = the components of source row r.  cond(dst_expr, window, [column exprs]) -> rust condition."""
     sw = dw + 1
     px = (lambda e: "%s::new(%s)" % (pix, e[0])) if nch == 1 else (lambda e: "%s::new([%s])" % (pix, ", ".join(e)))
     get = (lambda a, i, c: "%s[%d].0" % (a, i)) if nch == 1 else (lambda a, i, c: "%s[%d].0[%d]" % (a, i, c))
-    src = ",\n            ".join(px(["sp[%d][%d]" % (r, x * nch + c) for c in range(nch)]) for r in range(3) for x in range(sw))
-    nd = 2 * dw + 1
+    same = (lambda a, b: "%s.to_bits() == %s.to_bits()" % (a, b)) if comp == "f32" else (lambda a, b: "%s == %s" % (a, b))
+    src = ",\n            ".join(px(["sp[%d][%d]" % (r, x * nch + c) for c in range(nch)]) for r in range(sr) for x in range(sw))
+    nd = dr * dw + 1
     dst = ",\n            ".join(px(["stale[%d]" % (i * nch + c) for c in range(nch)]) for i in range(nd))
     asserts = []
-    for r in range(2):
+    for r in range(dr):
         for x in range(dw):
             for c in range(nch):
-                col = ["sp[%d][(o + %d) * %d + %d]" % (rr, x, nch, c) for rr in range(3)]
-                asserts.append("        assert!(%s == %s);" % (get("dst", r * dw + x, c), oracle(r, col)))
+                col = ["sp[%d][(o + %d) * %d + %d]" % (rr, x, nch, c) for rr in range(sr)]
+                asserts.append("        assert!(%s);" % cond(get("dst", r * dw + x, c), r, col))
     for c in range(nch):
-        asserts.append("        assert!(%s == stale[%d]);      // spare pixel untouched" % (get("dst", 2 * dw, c), 2 * dw * nch + c))
-    for (r, x) in ((0, 0), (2, sw - 1)):
+        asserts.append("        assert!(%s);      // spare pixel untouched" % same(get("dst", dr * dw, c), "stale[%d]" % (dr * dw * nch + c)))
+    for (r, x) in ((0, 0), (sr - 1, sw - 1)):
         for c in range(nch):
-            asserts.append("        assert!(%s == sp[%d][%d]);" % (get("src", r * sw + x, c), r, x * nch + c))
+            asserts.append("        assert!(%s);" % same(get("src", r * sw + x, c), "sp[%d][%d]" % (r, x * nch + c)))
     return """
-    /// %(sw)d x 3 source (exactly sized) -> %(dw)d x 2 destination + 1 spare pixel; the destination starts with arbitrary content;
+    /// %(sw)d x %(sr)d source (exactly sized) -> %(dw)d x %(dr)d destination + 1 spare pixel; the destination starts with arbitrary content;
     /// every destination component is compared with the oracle over its source column (so none depends on the stale content).
-    fn run(sp: [[%(comp)s; %(sc)d]; 3], n: &%(norm_ty)s, offset: u32) {
+    fn run(sp: [[%(comp)s; %(sc)d]; %(sr)d], n: &%(coef_ty)s, offset: u32) {
         let src: [%(pix)s; %(ns)d] = [
             %(src)s];
         let stale: [%(comp)s; %(nst)d] = [%(anys)s];
         let mut dst: [%(pix)s; %(nd)d] = [
             %(dst)s];
         {
-            let s = TypedImageRef::new(%(sw)d, 3, &src).unwrap();
-            let mut d = TypedImage::from_pixels_slice(%(dw)d, 2, &mut dst).unwrap();
+            let s = TypedImageRef::new(%(sw)d, %(sr)d, &src).unwrap();
+            let mut d = TypedImage::from_pixels_slice(%(dw)d, %(dr)d, &mut dst).unwrap();
             vert_convolution(&s, &mut d, offset, n);
         }
         let o = offset as usize;
 %(asserts)s
     }
-    fn any_rows() -> [[%(comp)s; %(sc)d]; 3] {
+    fn any_rows() -> [[%(comp)s; %(sc)d]; %(sr)d] {
         [%(anyrows)s]
     }
-""" % dict(sw=sw, dw=dw, comp=comp, sc=sw * nch, norm_ty=norm_ty, pix=pix, ns=3 * sw, src=src, nst=nd * nch,
+""" % dict(sw=sw, dw=dw, sr=sr, dr=dr, comp=comp, sc=sw * nch, coef_ty=coef_ty, pix=pix, ns=sr * sw, src=src, nst=nd * nch,
            anys=", ".join(["kani::any()"] * (nd * nch)), nd=nd, dst=dst, asserts="\n".join(asserts),
-           anyrows=",\n         ".join("[" + ", ".join(["kani::any()"] * (sw * nch)) + "]" for _ in range(3)))
+           anyrows=",\n         ".join("[" + ", ".join(["kani::any()"] * (sw * nch)) + "]" for _ in range(sr)))
+
+
+def grid(comp, rows, n, seed):
+    """a deterministic concrete pixel grid with the extreme values of the component type sprinkled in"""
+    special = dict(u16=["0", "65535", "1", "32768", "65534", "255", "256"],
+                   i32=["0", "i32::MAX", "i32::MIN", "-1", "1", "1000000007", "-2147483647"],
+                   f32=["0.0", "-0.0", "1.0", "f32::MAX", "f32::MIN_POSITIVE", "1.0e-45", "-3.75", "0.1", "65535.0", "-1.0e30", "0.33333334"])[comp]
+    out, x = [], seed
+    for r in range(rows):
+        row = []
+        for i in range(n):
+            x = (x * 1103515245 + 12345) % (1 << 31)
+            if (x >> 8) % 3 == 0:
+                row.append(special[(x >> 12) % len(special)])
+            elif comp == "u16":
+                row.append(str((x >> 10) % 65536))
+            elif comp == "i32":
+                row.append(str(((x >> 3) % (1 << 31)) - (1 << 30)))
+            else:
+                row.append(repr(((x >> 7) % 100000) / 100000.0))
+        out.append("[" + ", ".join(row) + "]")
+    return "[" + ", ".join(out) + "]"
 
 
 VU16 = D + "vertical_u16/native.rs"
-ORC32 = lambda r, col: "fv_oracle32(n, %d, &[%s])" % (r, ", ".join(col))
+COND32 = lambda d, r, col: "%s == fv_oracle32(n, %d, &[%s])" % (d, r, ", ".join(col))
 VHEAD = """
     use crate::convolution::optimisations::fv_norm::*;
     use crate::images::{TypedImage, TypedImageRef};
     use crate::pixels::*;
 """
-# taps with few set bits (the cost of a harness grows with the set bits of the constants x the number of outputs; the exact-value
-# relation for 'dirty' taps is carried by the tail-only harness and by the horizontal kernels)
-VT32 = "fv_norm32(30, &[(0, &[268435456, 805306368]), (1, &[-134217728, 1207959552])])"
-MODS.append(dict(file=VU16, name="fv_k10_vu16_x4w5", code=VHEAD + vert_run("U16x4", "u16", 4, 5, "Normalizer32", ORC32) + """
-    #[kani::proof]
-    #[kani::unwind(18)]
-    fn k10_vertical_u16_x4_w5_chunk_and_tail() {
-        let n = %s;
-        let sp = any_rows();
-        run(sp, &n, 0);
-        run(sp, &n, 1);
-    }
-""" % VT32))
-H("k10_vertical_u16_x4_w5_chunk_and_tail",
-  "U16x4 6x3 -> 5x2 (20 components per row: one 16-component chunk + 4-component tail), column offset 0 and 1, tap table (0.25, 0.75 | -0.125, 1.125) at precision 30, ALL pixel values, arbitrary stale destination",
-  "vertical u16 kernel == fx over the source column for every component, in the chunked loop and in the tail; result independent of the stale destination; spare pixel and source untouched; reads in bounds",
-  P_INT)
-
-
-MODS.append(dict(file=VU16, name="fv_k10_vu16_x2w2", code=VHEAD + vert_run("U16x2", "u16", 2, 2, "Normalizer32", ORC32) + """
+MODS.append(dict(file=VU16, name="fv_k10_vu16_x2w2", code=VHEAD + vert_run("U16x2", "u16", 2, 2, "Normalizer32", COND32) + """
     #[kani::proof]
     #[kani::unwind(6)]
     fn k10_vertical_u16_x2_w2_tail_only() {
@@ -205,20 +214,33 @@ MODS.append(dict(file=VU16, name="fv_k10_vu16_x2w2", code=VHEAD + vert_run("U16x
         run(any_rows(), &n, offset);
     }
 """))
-H("k10_vertical_u16_x2_w2_tail_only", "U16x2 3x3 -> 2x2", "tail only", P_INT)
-MODS[-2]["code"] += """
+H("k10_vertical_u16_x2_w2_tail_only",
+  "U16x2 3x3 -> 2x2 (4 components per row: shorter than one 16-component chunk, scalar tail only), column offset 0..=1 symbolic, "
+  "tap table (0.25, 0.75 | -0.1, 1.2) at precision 30, ALL pixel values, arbitrary stale destination",
+  "vertical u16 kernel (convolution_by_u16 path) == fx over the source column for every component; result independent of the stale "
+  "destination; spare pixel and source untouched; reads in bounds", P_INT)
+# The chunked path: `align_to_mut::<[u16; 16]>` makes the chunk / tail lengths symbolic for CBMC (pointer -> integer), the loops
+# unwind to the bound and symbolic pixels do not finish (> 900 s).  Concrete pixel grid, concrete taps, symbolic stale destination.
+VT32 = "fv_norm32(30, &[(0, &[-107374182, 1288490188])])"
+MODS.append(dict(file=VU16, name="fv_k10_vu16_x4w5", code=VHEAD + vert_run("U16x4", "u16", 4, 5, "Normalizer32", COND32, sr=2, dr=1) + """
     #[kani::proof]
     #[kani::unwind(18)]
-    fn k10_vertical_u16_x4_w5_o0() {
+    fn k10_vertical_u16_x4_w5_chunk_and_tail_grid() {
         let n = %s;
-        run(any_rows(), &n, 0);
+        run(%s, &n, 1);
     }
-""" % VT32
-H("k10_vertical_u16_x4_w5_o0", "exp", "exp", P_INT)
-
+""" % (VT32, grid("u16", 2, 24, 7))))
+H("k10_vertical_u16_x4_w5_chunk_and_tail_grid",
+  "U16x4 6x2 -> 5x1 (20 components per row: one 16-component chunk + 4-component tail), column offset 1, taps (-0.1, 1.2) at precision 30, "
+  "ONE concrete pixel grid (extreme values included), arbitrary stale destination",
+  "vertical u16 kernel == fx for every component of the chunked loop (convolution_by_chunks) and of the tail; x_src carried from the chunk "
+  "loop into the tail; spare pixel untouched; reads in bounds", P_INT, tier="thorough")
 
 # ------------------------------------------------------------------------------------------------------------------------------
-# floating kernels (i32x1, f32x1..f32x4, vertical_f32): Coefficients built concretely, oracle = the sequential sum in window order
+# floating kernels (i32x1, f32x1..f32x4, vertical_f32): Coefficients built concretely, oracle = the sequential sum in window order.
+# Measured: with symbolic pixels the two structurally equal f64 sums are NOT shared by CBMC (different SSA symbols): i32x1 with two
+# 3-tap windows needs 584 s, every f32 variant > 600 s.  The value relation is therefore checked on CONCRETE pixel grids x concrete
+# weight tables (bit-exact: same association), the frame / stale-destination part stays symbolic.
 # ------------------------------------------------------------------------------------------------------------------------------
 FLT = dict(file=D + "mod.rs", name="fv_k10_flt", vis="pub(crate) ", code="""
     /// window_size weights per window (only the first `size` of each window are meaningful; the rest is a trap value)
@@ -263,8 +285,7 @@ FHEAD = """
 
 
 def flit(x):
-    s = repr(float(x))
-    return s
+    return repr(float(x))
 
 
 def coeffs_literal(windows):
@@ -275,8 +296,8 @@ def coeffs_literal(windows):
     return "fv_coeffs(%d, &[%s], &[%s])" % (ws, ", ".join(vals), ", ".join("(%d, %d)" % (st, len(w)) for (st, w) in windows))
 
 
-def horiz_flt_run(pix, comp, nch, L, windows, check):
-    """L x 1 source -> len(windows) x 1 destination + spare.  check(dst_expr, sum_expr) -> assertion condition."""
+def horiz_flt_run(fname, pix, comp, nch, L, windows, check):
+    """fn fname(sp): L x 1 source -> len(windows) x 1 destination + spare.  check(dst_expr, sum_expr) -> assertion condition."""
     px = (lambda e: "%s::new(%s)" % (pix, e[0])) if nch == 1 else (lambda e: "%s::new([%s])" % (pix, ", ".join(e)))
     get = (lambda a, i, c: "%s[%d].0" % (a, i)) if nch == 1 else (lambda a, i, c: "%s[%d].0[%d]" % (a, i, c))
     nw = len(windows)
@@ -291,8 +312,7 @@ def horiz_flt_run(pix, comp, nch, L, windows, check):
         asserts.append("        assert!(%s.to_bits() == stale[%d].to_bits());      // spare pixel untouched" % (get("dst", nw, c), nw * nch + c)
                        if comp == "f32" else "        assert!(%s == stale[%d]);      // spare pixel untouched" % (get("dst", nw, c), nw * nch + c))
     return """
-    {
-        let sp: [%(comp)s; %(ns)d] = [%(anys)s];
+    fn %(fname)s(sp: [%(comp)s; %(ns)d]) {
         let src: [%(pix)s; %(L)d] = [%(src)s];
         let stale: [%(comp)s; %(nst)d] = [%(anyst)s];
         let mut dst: [%(pix)s; %(nd)d] = [%(dst)s];
@@ -304,7 +324,7 @@ def horiz_flt_run(pix, comp, nch, L, windows, check):
         }
 %(asserts)s
     }
-""" % dict(comp=comp, ns=L * nch, anys=", ".join(["kani::any()"] * (L * nch)), pix=pix, L=L, src=src, nst=(nw + 1) * nch,
+""" % dict(fname=fname, comp=comp, ns=L * nch, pix=pix, L=L, src=src, nst=(nw + 1) * nch,
            anyst=", ".join(["kani::any()"] * ((nw + 1) * nch)), nd=nw + 1, dst=dst, coeffs=coeffs_literal(windows), nw=nw,
            asserts="\n".join(asserts))
 
@@ -314,96 +334,109 @@ CHK_I32 = lambda d, e: "fv_round_sat(%s, %s)" % (e, d)
 W_SMOOTH_SHARPEN = [(0, [0.25, 0.5, 0.25]), (1, [-0.125, 1.25, -0.125])]
 W_DIRTY = [(2, [-0.1, 1.2]), (0, [0.3333333333333333, 0.3333333333333333, 0.3333333333333333])]
 W_HUGE = [(0, [1.5, 1.5, -0.75]), (3, [1.0e300])]
-W9 = [(0, [0.0625, 0.0625, 0.125, 0.125, 0.25, 0.125, 0.125, 0.0625, 0.0625]), (2, [-0.125, 1.25, -0.125])]
+W9 = [(0, [0.06, 0.07, 0.12, 0.13, 0.24, 0.13, 0.12, 0.07, 0.06]), (1, [0.01, 0.02, 0.03, 0.04, 0.8, 0.04, 0.03, 0.02])]
+SPECIAL_F32 = ["f32::NAN", "f32::INFINITY", "f32::NEG_INFINITY", "f32::MAX", "-0.0", "1.0e-45", "0.1", "f32::MIN"]
 
 
-def add_flt_h(tag, pix, comp, nch, case, L, windows, unwind, props, tier=None, extra=""):
+def add_flt_grids(tag, pix, comp, nch, L, tables, unwind):
     chk = CHK_F32 if comp == "f32" else CHK_I32
-    name = "k10_%s_%s" % (tag, case)
-    MODS.append(dict(file=D + "%s/native.rs" % tag, name="fv_%s" % name, code=FHEAD + """
+    name = "k10_%s_grids" % tag
+    n = L * nch
+    grids = [grid(comp, 1, n, 11 + nch)[1:-1], grid(comp, 1, n, 97 + nch)[1:-1]]
+    if comp == "f32":
+        grids.append("[" + ", ".join(SPECIAL_F32[(i * 3 + nch) % len(SPECIAL_F32)] for i in range(n)) + "]")
+    code = FHEAD
+    calls = []
+    for t, (tn, windows) in enumerate(tables):
+        code += horiz_flt_run("run_%s" % tn, pix, comp, nch, L, windows, chk)
+        calls += ["        run_%s(%s);" % (tn, g) for g in grids]
+    code += """
     #[kani::proof]
     #[kani::unwind(%d)]
-    fn %s() %s
-""" % (unwind, name, horiz_flt_run(pix, comp, nch, L, windows, chk).strip())))
-    H(name, "%s %dx1 -> %dx1, weights %s (window_size one more than the longest window, unused slots hold a trap value %s), ALL pixel values, arbitrary stale destination"
-      % (pix, L, len(windows), windows, TRAP),
+    fn %s() {
+%s
+    }
+""" % (unwind, name, "\n".join(calls))
+    MODS.append(dict(file=D + "%s/native.rs" % tag, name="fv_%s" % name, code=code))
+    H(name, "%s %dx1 -> 2x1, weight tables %s (window_size one more than the longest window, unused slots hold the trap value %s), %d CONCRETE pixel lines "
+      "(extreme values%s included), arbitrary stale destination" % (pix, L, tables, TRAP, len(grids), ", NaN, +-inf, subnormal" if comp == "f32" else ""),
       ("%s horizontal kernel == the sequential f64 sum in window order converted with `as f32`, bit-exact (or both NaN), on every channel" % tag if comp == "f32" else
        "i32x1 horizontal kernel == the sequential f64 sum in window order, rounded to nearest (ties away from zero) and saturated to i32") +
-      "; weights beyond the window's size unused; spare pixel untouched; every destination pixel assigned; reads in bounds", props, tier=tier)
+      "; weights beyond the window's size unused; spare pixel untouched; reads in bounds", P_FLT)
 
 
-add_flt_h("i32x1", "I32", "i32", 1, "h_smooth_sharpen", 4, W_SMOOTH_SHARPEN, 6, P_FLT)
-add_flt_h("i32x1", "I32", "i32", 1, "h_huge_saturating", 4, W_HUGE, 6, P_FLT, tier="thorough")
-add_flt_h("f32x1", "F32", "f32", 1, "smooth_sharpen", 4, W_SMOOTH_SHARPEN, 10, P_FLT, tier="thorough")
-add_flt_h("f32x1", "F32", "f32", 1, "nine_taps_chunk_and_rest", 10, W9, 11, P_FLT)
-add_flt_h("f32x2", "F32x2", "f32", 2, "smooth_sharpen", 4, W_SMOOTH_SHARPEN, 6, P_FLT)
-add_flt_h("f32x3", "F32x3", "f32", 3, "smooth_sharpen", 4, W_SMOOTH_SHARPEN, 6, P_FLT)
-add_flt_h("f32x4", "F32x4", "f32", 4, "smooth_sharpen", 4, W_SMOOTH_SHARPEN, 6, P_FLT)
-add_flt_h("f32x2", "F32x2", "f32", 2, "dirty_weights", 4, W_DIRTY, 6, P_FLT, tier="thorough")
+TABLES = [("smooth_sharpen", W_SMOOTH_SHARPEN), ("dirty", W_DIRTY), ("huge", W_HUGE)]
+add_flt_grids("i32x1", "I32", "i32", 1, 4, TABLES, 6)
+add_flt_grids("f32x1", "F32", "f32", 1, 10, TABLES + [("nine_taps", W9)], 11)
+add_flt_grids("f32x2", "F32x2", "f32", 2, 4, TABLES, 6)
+add_flt_grids("f32x3", "F32x3", "f32", 3, 4, TABLES, 6)
+add_flt_grids("f32x4", "F32x4", "f32", 4, 4, TABLES, 6)
 
-# ---- experiments (temporary)
-MODS[2]["code"] += """
-    fn orc(n: &Normalizer32, chunk: usize, px: &[u16]) -> u16 {
-        let c = &n.chunks()[chunk];
-        let mut acc: i64 = 1i64 << (n.precision() - 1);
-        for (i, &k) in c.values().iter().enumerate() {
-            acc += px[c.start as usize + i] as i64 * (k as i64);
-        }
-        n.clip(acc)
+# i32x1 with ALL pixel values (measured 584 s on a loaded machine): thorough only
+MODS.append(dict(file=D + "i32x1/native.rs", name="fv_k10_i32x1_any", code=FHEAD + horiz_flt_run("run", "I32", "i32", 1, 4, W_SMOOTH_SHARPEN, CHK_I32) + """
+    #[kani::proof]
+    #[kani::unwind(6)]
+    fn k10_i32x1_h_smooth_sharpen_any_pixels() {
+        run([kani::any(), kani::any(), kani::any(), kani::any()]);
     }
-    fn runx(sp: [[u16; 2]; 3], n: &Normalizer32, own: bool) {
-        let src: [U16x2; 3] = [U16x2::new(sp[0]), U16x2::new(sp[1]), U16x2::new(sp[2])];
-        let stale: [[u16; 2]; 2] = kani::any();
-        let mut dst = [U16x2::new(stale[0]), U16x2::new(stale[1])];
-        {
-            let s = TypedImageRef::new(3, 1, &src).unwrap();
-            let mut d = TypedImage::from_pixels_slice(1, 1, &mut dst).unwrap();
-            horiz_convolution(&s, &mut d, 0, n);
-        }
-        if own {
-            assert!(dst[0].0[0] == orc(n, 0, &[sp[0][0], sp[1][0], sp[2][0]]));
-            assert!(dst[0].0[1] == orc(n, 0, &[sp[0][1], sp[1][1], sp[2][1]]));
-        } else {
-            assert!(dst[0].0[0] == fv_oracle32(n, 0, &[sp[0][0], sp[1][0], sp[2][0]]));
-            assert!(dst[0].0[1] == fv_oracle32(n, 0, &[sp[0][1], sp[1][1], sp[2][1]]));
-        }
+"""))
+H("k10_i32x1_h_smooth_sharpen_any_pixels", "I32 4x1 -> 2x1, weights %s, ALL i32 pixel values, arbitrary stale destination" % W_SMOOTH_SHARPEN,
+  "i32x1 horizontal kernel == the sequential f64 sum in window order, rounded to nearest (ties away from zero), saturated to i32; spare pixel untouched",
+  P_FLT, tier="thorough")
+
+# vertical kernels on Coefficients: i32x1::vert_convolution and vertical_f32 (chunks of 8 components via chunks_exact_mut + scalar rest)
+VW = [(0, [0.3, 0.7]), (1, [-0.1, 1.2])]      # window r of destination row r over source rows start..start+2
+def cond_flt(chk):
+    def f(d, r, col):
+        st, ks = VW[r]
+        return chk(d, "fv_fsum(&[%s], &[%s])" % (", ".join("%s as f64" % col[st + i] for i in range(len(ks))), ", ".join(flit(k) for k in ks)))
+    return f
+
+
+def add_vert_flt(file, name, pix, comp, nch, dw, unwind, bound, claim, functions_note=None):
+    chk = CHK_F32 if comp == "f32" else CHK_I32
+    n = (dw + 1) * nch
+    grids = [grid(comp, 3, n, 5 + nch), grid(comp, 3, n, 41 + nch)]
+    if comp == "f32":
+        grids.append("[" + ", ".join("[" + ", ".join(SPECIAL_F32[(i * 3 + r + nch) % len(SPECIAL_F32)] for i in range(n)) + "]" for r in range(3)) + "]")
+    calls = "\n".join("        run(%s, &n, %d);" % (g, o) for g in grids for o in (0, 1))
+    MODS.append(dict(file=file, name="fv_%s" % name, code=FHEAD + vert_run(pix, comp, nch, dw, "Coefficients", cond_flt(chk)) + """
+    #[kani::proof]
+    #[kani::unwind(%d)]
+    fn %s() {
+        let n = %s;
+        let n = &n;
+%s
     }
-    #[kani::proof]
-    #[kani::unwind(6)]
-    fn k10_x1() { runx(kani::any(), &fv_norm32(31, &[(1, &[-214748365, 2147483647])]), false); }
-    #[kani::proof]
-    #[kani::unwind(6)]
-    fn k10_x2() { runx(kani::any(), &fv_norm32(31, &[(1, &[-214748365, 2147483647])]), true); }
-    #[kani::proof]
-    #[kani::unwind(6)]
-    fn k10_x3() { runx(kani::any(), &fv_norm32(31, &[(1, &[536870912, 1073741824])]), false); }
-    #[kani::proof]
-    #[kani::unwind(6)]
-    fn k10_x4() { runx(kani::any(), &fv_norm32(30, &[(1, &[-107374182, 1288490188])]), false); }
-"""
-MODS[2]["code"] += """
-    #[kani::proof]
-    #[kani::unwind(6)]
-    fn k10_x5() { runx(kani::any(), &fv_norm32(30, &[(1, &[-134217728, 1207959552])]), false); }
-    #[kani::proof]
-    #[kani::unwind(6)]
-    fn k10_x6() { runx(kani::any(), &fv_norm32(30, &[(1, &[107374182, 966367642])]), false); }
-    #[kani::proof]
-    #[kani::unwind(6)]
-    fn k10_x7() { runx(kani::any(), &fv_norm32(30, &[(1, &[268435456, 805306368])]), false); }
-"""
-for x in ("x5", "x6", "x7"):
-    H("k10_" + x, "exp", "exp", P_INT)
+""" % (unwind, name, coeffs_literal(VW), calls.replace("&n,", "n,"))))
+    H(name, bound + "; weights %s; %d CONCRETE pixel grids x column offset 0 and 1; arbitrary stale destination" % (VW, len(grids)), claim, P_FLT)
+
+
+add_vert_flt(D + "i32x1/native.rs", "k10_i32x1_vertical_grids", "I32", "i32", 1, 2, 6, "I32 3x3 -> 2x2",
+             "i32x1 vertical kernel == the sequential f64 sum over the source column in window order, rounded to nearest (ties away from zero) and "
+             "saturated; spare pixel untouched; every destination pixel assigned; reads in bounds")
+VF32 = D + "vertical_f32/native.rs"
+add_vert_flt(VF32, "k10_vertical_f32_x3_w3_chunk_and_rest_grids", "F32x3", "f32", 3, 3, 10,
+             "F32x3 4x3 -> 3x2 (9 components per row: one 8-component chunk + 1 scalar rest)",
+             "vertical f32 kernel == the sequential f64 sum over the source column converted with `as f32`, bit-exact (or both NaN), in the chunked loop "
+             "and in the scalar rest; spare pixel untouched; every destination component assigned; reads in bounds")
+add_vert_flt(VF32, "k10_vertical_f32_x1_w2_rest_only_grids", "F32", "f32", 1, 2, 10,
+             "F32 3x3 -> 2x2 (2 components per row: no full chunk, scalar rest only)",
+             "vertical f32 kernel (convolution_by_f32 path) == the sequential f64 sum over the source column converted with `as f32`; spare pixel untouched")
+HARNESSES[-1]["tier"] = "thorough"
 
 FUNCTIONS = [dict(file=D + "%s/native.rs" % t, fn="horiz_convolution") for t in ("u8x2", "u8x3", "u16x2", "u16x3", "u16x4")] + [
     dict(file=VU16, fn="vert_convolution"), dict(file=VU16, fn="convolution_by_u16"), dict(file=VU16, fn="convolution_by_chunks")] + [
     dict(file=D + "%s/native.rs" % t, fn="horiz_convolution") for t in ("i32x1", "f32x1", "f32x2", "f32x3", "f32x4")] + [
-    dict(file=D + "f32x1/native.rs", fn="convolution_by_chunks")]
+    dict(file=D + "i32x1/native.rs", fn="vert_convolution"), dict(file=D + "f32x1/native.rs", fn="convolution_by_chunks"),
+    dict(file=VF32, fn="vert_convolution"), dict(file=VF32, fn="convolution_by_f32"), dict(file=VF32, fn="convolution_by_chunks")]
 
 UNITS = [dict(
     id="K10",
     title="the remaining native kernels (u8x2, u8x3, u16x2..4, vertical u16, i32, f32x1..4, vertical f32) compute the convolution formula; reads inside the window; frame",
-    assumptions=["bounded / sampled: 'kernel == formula' is checked on concrete tap tables x ALL pixel values and on concrete pixel rows x ALL tap values "
-                 "(SAT does not finish when both are symbolic); sizes, window starts and precision are concrete"],
+    assumptions=["bounded / sampled: integer kernels: 'kernel == fx' on concrete tap tables x ALL pixel values and on concrete pixel rows x ALL tap values "
+                 "(SAT does not finish when both are symbolic); sizes, window starts and precision are concrete",
+                 "floating kernels and the chunked path of vertical_u16: concrete pixel grids x concrete weight tables (symbolic pixels do not finish within 600 - 900 s), "
+                 "the stale destination content and the spare pixel stay symbolic; i32x1 horizontal additionally for ALL pixel values in the thorough tier"],
     kani=dict(functions=FUNCTIONS, modules=[SUPPORT, FLT] + MODS, harnesses=HARNESSES),
 )]
